@@ -72,6 +72,7 @@ func init() {
 		r.importing = "C16"
 		checkLiteralFidelity(r, ga)
 		checkDoubleNegation(r, ga)
+		checkExposure(r, ga) // "the tree shape": what `not` applies to, and how `and`/`or` group
 		r.importing = "C19"
 		checkSelectorString(r, prog, "c19") // the text of a bare (selector-shaped) value is the selector's rendering
 		if a15 := FindAnchors(prog); len(a15.Missing) == 0 {
@@ -103,6 +104,7 @@ func init() {
 		checkWhitespaceRule(r, ga)
 		r.importing = "C15"
 		checkActionErrors(r, prog, "c15") // what was printed is read back: no action refuses, of its own accord, a construct the grammar produces
+		checkAnchoring(r, ga)             // … all of it: every alternative of the entry rule runs to the end of the input
 		r.importing = ""
 		r.importing = "C19"
 		checkSelectorString(r, prog, "c19") // a bare value's text is Selector.String(): dotted join of the parts
@@ -1246,6 +1248,9 @@ func checkLiteralFidelity(r *Run, ga *GA) {
 			// the characters in between exclude exactly the delimiter
 			for _, mid := range a.Kids[1 : len(a.Kids)-1] {
 				inner := mid
+				if inner.Kind != peg.Star {
+					spans = false // "every string s", the empty one included: zero or more characters between the quotes
+				}
 				for inner.Kind == peg.Star || inner.Kind == peg.Plus {
 					inner = inner.Kids[0]
 				}
@@ -1256,7 +1261,7 @@ func checkLiteralFidelity(r *Run, ga *GA) {
 				}
 			}
 		}
-		r.Check("c16.string-literal-span", "action:"+u.fd.Name.Name, ga.posOf(u.action), spans, "the string-literal action does not span a quote, any characters but that quote, and the same closing quote")
+		r.Check("c16.string-literal-span", "action:"+u.fd.Name.Name, ga.posOf(u.action), spans, "the string-literal action does not span a quote, zero or more characters other than that quote, and the same closing quote")
 	}
 	// (ii) value rule: Raw of the string alternative is the unquoted string itself; nothing ordered before it can start with a quote
 	sites := ga.valueSites()
